@@ -66,7 +66,31 @@ def make_sorter(kind, hierarchy, ic):
     from hpotk.util.sort import HierarchicalEdgeTermIdSorting, HierarchicalIcTermIdSorting
     if kind == 'edge':
         return HierarchicalEdgeTermIdSorting(hierarchy)
-    return HierarchicalIcTermIdSorting(hierarchy, lambda t: ic.get(t.value, 0.0))
+    g = getattr(hierarchy, 'graph', hierarchy)
+    if len(ic) % 3 == 2:
+        # the user's function fails for one term during the FIRST sort it is used in, and is fine afterwards
+        state = {'armed': True}
+
+        def ic_fails_once(t):
+            if state['armed'] and ic.get(t.value, 0.0) == max(ic.values()):
+                state['armed'] = False
+                raise KeyError(t.value)
+            return ic.get(t.value, 0.0)
+        srt = HierarchicalIcTermIdSorting(hierarchy, ic_fails_once)
+        try:
+            srt.argsort([t for t in g][:6])
+        except KeyError:
+            pass
+        state['armed'] = False
+        return srt
+
+    def ic_reentrant(t):
+        # a user function that itself queries the hierarchy the sorter is working on (half-consuming one traversal, draining another)
+        next(iter(g.get_ancestors(t)), None)
+        list(g.get_descendants(t))
+        g.is_ancestor_of(g.root, t)
+        return ic.get(t.value, 0.0)
+    return HierarchicalIcTermIdSorting(hierarchy, ic_reentrant if len(ic) % 2 == 0 else (lambda t: ic.get(t.value, 0.0)))
 
 
 def run_group(ctx, edges, kind, ic, hier_kind, inputs, stream):
@@ -222,8 +246,11 @@ def run(ctx):
                 run_group(ctx, edges, kind, ic, rng.choice(['graph', 'ontology']), inputs, 'exhaustive.len<=4.over-3-ids')
     ctx.exhaustive['all sequences of length <= 4 over 3 ids on 4 fixed DAGs x {edge, IC} sorters (one sorter instance per group)'] = True
     deep_hierarchy(ctx, rng, 1300 if not thorough else 3500)
-    for _ in range(300 if thorough else 60):
-        edges = single_rooted(rng, rng.randrange(2, 26 if thorough else 13))
+    for k in range(300 if thorough else 60):
+        if k % 4 == 3:      # several parentless terms: the factory adds owl:Thing, items may come from different sub-hierarchies
+            edges = gl.random_dag(rng, n=rng.randrange(4, 14), shape='forest')[0]
+        else:
+            edges = single_rooted(rng, rng.randrange(2, 26 if thorough else 13))
         nodes = gl.nodes_of(edges)
         for kind in ('edge', 'ic'):
             ic = random_ic(rng, edges) if kind == 'ic' else None
